@@ -116,6 +116,14 @@ Fixpoint lookup_user (u : N) (l : list (N * ustate)) : option ustate :=
   | (k, v) :: r => if N.eqb k u then Some v else lookup_user u r
   end.
 
+(* store.Users.Get: the adapters do not return a user whose state is deleted (db/mysql/adapter.go UserGet:
+   `WHERE id=? AND state!=?`) *)
+Definition get_user (u : N) (l : list (N * ustate)) : option ustate :=
+  match lookup_user u l with
+  | Some StateDeleted => None
+  | x => x
+  end.
+
 Fixpoint set_user (u : N) (v : ustate) (l : list (N * ustate)) : list (N * ustate) :=
   match l with
   | [] => [(u, v)]
@@ -294,7 +302,7 @@ Definition acc_state (keep : bool) (rsid target : N) (a : accstate) (store_ok : 
       if negb (N.eqb uid (s_uid r)) && negb (s_root r) then Ok st     (* another's account by non-root *)
       else if negb (s_root r) then Ok st                               (* only root can change the state *)
       else
-        match lookup_user uid (users st) with
+        match get_user uid (users st) with
         | None => Ok st                                                (* ErrNotFound *)
         | Some cur =>
           match a with
